@@ -21,6 +21,24 @@
 (*           G16R behaviours are either WIDE (large PnLs and costs, as      *)
 (*           before, without ratio figures: their squares exceed TLC's      *)
 (*           integers) or over the ratio domain RatioPnLs x RatioCosts.     *)
+(*       LATE EXITS: the exit-time steps include negative ones (GapSeq,     *)
+(*           GapsGen), so positions are delivered behind positions closed   *)
+(*           later, also before the session start; `late` says whether the  *)
+(*           position just delivered is a late exit (Stats!IsLate).  G16R   *)
+(*           decides with its first step whether the behaviour may contain  *)
+(*           late exits at all (`mono`: negative steps are taken forwards). *)
+(*           The ratio figures of an instrument are those of the reading of *)
+(*           the code (Stats.tla, open points 4 and 5) plus `alt`: the      *)
+(*           sheets of the OTHER readings that differ (empty without a late *)
+(*           exit) - the harness accepts a generated sheet that is, as a    *)
+(*           whole, one of them.  `returns`: count / sum / mean of all and  *)
+(*           of the losing returns (PnLReturns.total / .losses), `var` /    *)
+(*           `lossvar` their variances (ratio domain).                      *)
+(*       BALANCES: AddBalance carries total (x) and free (y); the asset     *)
+(*           sheet is the last snapshot's pair and the number of points of  *)
+(*           the equity curve.  G16R follows a balance up on the SAME asset *)
+(*           half of the time, half of those with the same total (only the  *)
+(*           free part moves, or nothing does).                             *)
 (*  C17: G17 exhaustive - every sequence of exactly MaxVals values          *)
 (*       G17R simulation                                                    *)
 (*       exp = DataSet(history so far)                                      *)
@@ -31,13 +49,21 @@ gvars == <<closed, acc, bal, out, vals, wf, last, hist, done>>
 OptRJ(o) == IF o.has THEN RJ(o.v) ELSE "none"
 PFJ(f)   == CASE f.k = "none" -> "none" [] f.k = "max" -> "MAX" [] f.k = "min" -> "MIN" [] OTHER -> RJ(f.v)
 SheetJ(s) == [pnl |-> RJ(s.pnl), win_rate |-> OptRJ(s.win_rate), profit_factor |-> PFJ(s.profit_factor)]
-AssetJ(s) == IF s.has THEN [total |-> s.total] ELSE "none"
+AssetJ(s) == IF s.has THEN [total |-> s.total, free |-> s.free, points |-> s.points] ELSE "none"
+ReturnsJ(r) == [count |-> r.count, sum |-> RJ(r.sum), mean |-> RJ(r.mean),
+                losses_count |-> r.losses_count, losses_sum |-> RJ(r.losses_sum), losses_mean |-> RJ(r.losses_mean)]
 SummaryJ(S) == [instruments |-> [i \in Instr |-> SheetJ(S.instruments[i])],
                 assets      |-> [a \in Asset |-> AssetJ(S.assets[a])]]
+\* ... with the returns summaries of every instrument
+SummaryRJ(cl, bl) == LET S == SummaryOf(cl, bl)
+                     IN [instruments |-> [i \in Instr |-> SheetJ(S.instruments[i])],
+                         assets      |-> [a \in Asset |-> AssetJ(S.assets[a])],
+                         returns     |-> [i \in Instr |-> ReturnsJ(ReturnsOf(cl[i]))]]
 \* the ratio figures of a history for (rf, iv), rescaled to iw
 FigJ(f, g, tag) == <<f.k, f.sign, f.sq[1], f.sq[2], f.fac[1], f.fac[2], tag, g.fac[1], g.fac[2]>>
-RatioJ(h, rf, iv, iw) ==
-  LET b == Base(h)  s == SheetOfBase(b, rf, iv)  c == CaseOfBase(b, rf)
+\* the four figures on ONE reading b of the history
+Ratio4J(b, rf, iv, iw) ==
+  LET s == SheetOfBase(b, rf, iv)  c == CaseOfBase(b, rf)
       re(f) == ScaleFig(f, IvLen[iv], IvLen[iw])
       ro == ScaleRor(s.pnl_return, IvLen[iv], IvLen[iw])
   IN [pnl_return    |-> <<s.pnl_return.v[1], s.pnl_return.v[2], s.pnl_return.fac[1], s.pnl_return.fac[2], ro.fac[1], ro.fac[2]>>,
@@ -45,6 +71,12 @@ RatioJ(h, rf, iv, iw) ==
       sortino_ratio |-> FigJ(s.sortino_ratio, re(s.sortino_ratio), c.sortino_ratio),
       calmar_ratio  |-> FigJ(s.calmar_ratio, re(s.calmar_ratio), c.calmar_ratio),
       scale         |-> ScaleCaseOfBase(b, iv)]
+\* the reading of the code, and `alt`: the sheets of the other readings that differ from it (open points 4, 5)
+RatioJ(h, rf, iv, iw) ==
+  LET B == BaseAll(h)
+      main == Ratio4J(ViewOf(B, CodeReading), rf, iv, iw)
+      alt  == IF B.late THEN {Ratio4J(ViewOf(B, rd), rf, iv, iw) : rd \in Readings} \ {main} ELSE {}
+  IN main @@ [alt |-> alt, late |-> B.late, var |-> RJ(B.var), lossvar |-> RJ(B.lossvar)]
 RatiosJ(cl, rf, iv, iw) ==
   [rf |-> RJ(rf), iv |-> iv, ivlen |-> IvLen[iv], iw |-> iw, iwlen |-> IvLen[iw],
    instruments |-> [i \in Instr |-> RatioJ(cl[i], rf, iv, iw)], empty |-> RatioJ(<<>>, rf, iv, iw)]
@@ -56,21 +88,24 @@ DataSetJ(d) == [count |-> d.count, sum |-> d.sum, mean |-> RJ(d.mean), var |-> R
 RatioPnLs  == {-4, -3, -2, -1, 0, 1, 2, 3, 4}
 RatioCosts == {4, 5, 10, 20}
 RatioInstr == {"i1", "i2"}         \* (the instruments G16 does not use; the other two stay empty: their sheets are compared too)
-GapsGen    == {0, 1, 7200, 100000, 40000000}
+GapsGen    == {0, 1, 7200, 100000, 40000000, -1, -7200, -100000}
+\* balances: a pair (total, free) drawn for the state-dependent dummy d (notes/HOWTO.md, TLC pitfalls)
+FreesOf(t) == {f \in Bals : f <= t}
 RFsGen     == {Zero, <<1, 10>>, <<-1, 10>>, <<1, 20>>}
 
 GInit == Init /\ hist = <<>> /\ done = FALSE
 
 \* t: the exit time of the position just closed; wide: no ratio figures (see the header)
-Rec16(wide, rf, iv, iw) ==
+Rec16(wide, mono, rf, iv, iw) ==
   [a |-> last'.a, k |-> last'.k, x |-> last'.x, y |-> last'.y,
-   t |-> IF last'.a = "AddClosed" THEN LastT(closed'[last'.k]) ELSE 0, wide |-> wide,
-   exp |-> SummaryJ(SummaryOf(closed', bal')),
+   t |-> IF last'.a = "AddClosed" THEN LastT(closed'[last'.k]) ELSE 0, wide |-> wide, mono |-> mono,
+   late |-> IF last'.a = "AddClosed" THEN IsLate(closed'[last'.k], Len(closed'[last'.k])) ELSE FALSE,
+   exp |-> SummaryRJ(closed', bal'),
    ratios |-> IF wide THEN "none" ELSE RatiosJ(closed', rf, iv, iw)]
 \* the choices of G16: sequences indexed by a hash of the history
 RFSeq  == <<Zero, <<1, 10>>, <<-1, 10>>, <<1, 20>>>>
 IvSeq  == <<"Daily", "Annual252", "Annual365", "Hours2", "Days500">>
-GapSeq == <<0, 1, 7200, 100000, 40000000>>
+GapSeq == <<0, 1, 7200, 100000, 40000000, -7200, -1>>
 \* G16 gives the ratio figures while all closed positions belong to one instrument (the figures of an
 \* instrument are functions of ITS history: every history of one instrument up to the bound is met
 \* this way; interleavings of several instruments with ratio figures come from G16R)
@@ -87,24 +122,36 @@ G16Step == /\ ~done /\ NClosed < MaxClosed
                  /\ AddClosedH(i, p, c, LastT(closed[i]) + GapSeq[((HashOf(closed) + 2 * p + 1000 + Len(closed[i])) % Len(GapSeq)) + 1])
                  /\ UNCHANGED acc
            /\ LET H == HashOf(closed')
-              IN hist' = Append(hist, Rec16(~OneInstr(closed'), RFSeq[(H % 4) + 1], IvSeq[((H \div 4) % 5) + 1],
+              IN hist' = Append(hist, Rec16(~OneInstr(closed'), FALSE, RFSeq[(H % 4) + 1], IvSeq[((H \div 4) % 5) + 1],
                                              IvSeq[(((H \div 4) + 1 + (H % 3)) % 5) + 1]))
            /\ UNCHANGED done
 \* (draws are bound through singleton sets: a RandomElement inside a LET / argument position may be
 \*  re-drawn at every reference - notes/HOWTO.md "TLC pitfalls")
 \* (the first step decides whether the behaviour is a wide one)
+\* the last AddBalance event of the behaviour so far (0: none)
+PrevBal(h) == LET I == {k \in 1..Len(h) : h[k].a = "AddBalance"}
+              IN IF I = {} THEN 0 ELSE CHOOSE k \in I : \A j \in I : j <= k
+\* (the first step decides whether the behaviour is a wide one, and whether it is free of late exits)
 G16StepR == /\ ~done /\ Len(hist) < MaxClosed
-            /\ \E w \in {IF hist = <<>> THEN RandomElement(BOOLEAN) ELSE hist[1].wide} :
+            /\ \E w \in {IF hist = <<>> THEN RandomElement(BOOLEAN) ELSE hist[1].wide},
+                  m \in {IF hist = <<>> THEN RandomElement({1, 2}) = 1 ELSE hist[1].mono} :
                \E r \in {RandomElement(1..12)}, i \in {RandomElement(IF w THEN Instr ELSE Instr \cap RatioInstr)},
                   p \in {RandomElement(IF w THEN PnLs ELSE RatioPnLs)}, c \in {RandomElement(IF w THEN Costs ELSE RatioCosts)},
-                  a \in {RandomElement(Asset)}, b \in {RandomElement(Bals)}, g \in {RandomElement(Gaps)},
+                  a0 \in {RandomElement(Asset)}, b0 \in {RandomElement(Bals)}, g0 \in {RandomElement(Gaps)},
+                  follow \in {RandomElement(1..4)},
                   rf \in {RandomElement(RFs)}, iv \in {RandomElement(Ivs)}, iw \in {RandomElement(Ivs)} :
+               LET pb == PrevBal(hist)
+                   \* a balance follows the previous one up on the same asset (follow <= 2), with the same total (follow = 1)
+                   a  == IF pb > 0 /\ follow <= 2 THEN hist[pb].k ELSE a0
+                   b  == IF pb > 0 /\ follow = 1 THEN hist[pb].x ELSE b0
+                   g  == IF m /\ g0 < 0 THEN -g0 ELSE g0
+               IN \E f \in {RandomElement(FreesOf(b))} :
                  /\ IF r <= 6 THEN AddClosedH(i, p, c, LastT(closed[i]) + g) /\ UNCHANGED acc
-                    ELSE IF r <= 8 THEN AddBalance(a, b)
+                    ELSE IF r <= 8 THEN AddBalance(a, b, f)
                     ELSE IF r <= 10 THEN GenerateS(SummaryOf(closed, bal))     \* (what it returns is in the record: Rec16)
                     ELSE IF r = 11 \/ closed[i] = <<>> THEN Persist
                     ELSE ResetH(i) /\ UNCHANGED acc
-                 /\ hist' = Append(hist, Rec16(w, rf, iv, iw))
+                 /\ hist' = Append(hist, Rec16(w, m, rf, iv, iw))
             /\ UNCHANGED done
 G16Finish  == /\ ~done /\ NClosed = MaxClosed /\ done' = TRUE
               /\ UNCHANGED <<closed, acc, bal, out, vals, wf, last, hist>>
